@@ -222,9 +222,8 @@ func witnesses(c *core.Ctx) {
 			opPlan(c, 0, base, base+dd, true, []int64{10 * sec, 5 * min, hour})
 		}
 	}
-	// observation (C11): month-type family lookup range for a query crossing a month boundary
-	opFqr(c, calcs[1], ms(2023, 6, 1, 0, 0, 0, 0), ms(2023, 6, 25, 0, 0, 0, 0), ms(2023, 7, 5, 0, 0, 0, 0))
-	opFqr(c, calcs[2], ms(2022, 1, 1, 0, 0, 0, 0), ms(2022, 11, 10, 0, 0, 0, 0), ms(2023, 2, 3, 0, 0, 0, 0))
+	// observation (C11, outside C13's statement): range lookup across a month / year boundary
+	observeLookup(c)
 }
 
 // ---------------------------------------------------------------- calendar sweep
@@ -394,16 +393,15 @@ func opFunction(c *core.Ctx, r *rand.Rand) {
 	}
 }
 
-func opFqr(c *core.Ctx, k calcT, base, qs, qe int64) {
-	guarded(c, fmt.Sprintf("fqr %s %d %d %d", k.name, base, qs, qe), false, func() string {
-		// the expressions of segment.GetDataFamilies
-		s := k.calc.CalcFamilyStartTime(base, k.calc.CalcFamily(qs, base))
-		e := k.calc.CalcFamilyStartTime(base, k.calc.CalcFamily(qe, base))
-		if s > e {
-			c.Branch("fqr/inverted-range")
-		}
-		return fmt.Sprintf("%d %d", s, e)
-	})
+// observeFqr evaluates the family range expressions of segment.GetDataFamilies on the real
+// calculators. Range lookup is outside C13's statement, so this is counted, not diffed (the
+// model's `fqr` op exists for manual use).
+func observeFqr(c *core.Ctx, k calcT, base, qs, qe int64) {
+	s := k.calc.CalcFamilyStartTime(base, k.calc.CalcFamily(qs, base))
+	e := k.calc.CalcFamilyStartTime(base, k.calc.CalcFamily(qe, base))
+	if s > e && qs <= qe {
+		c.Branch("observation/family-query-range-inverted/" + k.name)
+	}
 }
 
 // opRangeGlue mirrors the family-range glue of segment.go / row_broker.go on the real calculators
@@ -439,7 +437,7 @@ func opRangeGlue(c *core.Ctx, r *rand.Rand) {
 		base := k.calc.CalcSegmentTime(t)
 		qs := t - r.Int63n(40*day)
 		qe := t + r.Int63n(40*day)
-		opFqr(c, k, base, qs, qe)
+		observeFqr(c, k, base, qs, qe)
 	default:
 		a := timeutil.TimeRange{Start: t, End: t + r.Int63n(3*day) - day/2}
 		u := randTimestamp(r)
